@@ -31,6 +31,8 @@ def translate(ctx):
     js = ctx.work + "/flowgraph.json"
     with C.Lock("coq"):     # gen/FlowGraph.v is shared with a concurrent coqc of this property
         rc, out = C.sh([fb, C.REPO, C.COQ + "/gen/FlowGraph.v", js], timeout=600)
+        if rc == 0:
+            C.want_gen(C.COQ + "/gen/FlowGraph.v")
     if rc != 0:
         raise C.BuildError("flowgraph translator failed on %s:\n%s" % (C.REPO, out[-3000:]))
     C.log(out.strip().splitlines()[-1] if out.strip() else "flowgraph: no output")
@@ -200,6 +202,7 @@ def write_drawlog(fresh, exch):
         if not os.path.exists(pth) or open(pth).read() != txt:
             with open(pth, "w") as fh:
                 fh.write(txt)
+        C.want_gen(pth, txt)
 
 
 def sequence_text(calls, upto):
